@@ -104,7 +104,12 @@ def gen_gross(rng, maxn=12):
         if case["suspect"] is not None:
             case["suspect"] = seq([f64[1], f64[2]])
         n = length(rng, maxn)
-        case["inp"] = [None if rng.random() < 0.1 else rng.choice(f32 + f32 + below_above + [F(1), F(30)]) for _ in range(n)]
+        if rng.random() < 0.5:
+            case["inp"] = [None if rng.random() < 0.1 else rng.choice(f32 + f32 + below_above + [F(1), F(30)]) for _ in range(n)]
+        else:
+            # ... or float64 values exactly ON the decimal bounds and one float64 step on either side of them
+            ulps = [F(float(np.nextafter(d, s))) for d in dec for s in (-1e9, 1e9)]
+            case["inp"] = [None if rng.random() < 0.1 else rng.choice(f64 + f64 + ulps + [F(1), F(30)]) for _ in range(n)]
         case["decimal_f32"] = True
     return case
 
@@ -349,9 +354,39 @@ def gen_roc(rng, maxn=12):
     else:
         thr = rng.choice([E, F(1, 8), H, F(1), F(1, 64), F(1, 1024)])
     case = {"fn": "roc", "inp": xs, "t": t, "thr": thr}
+    if rng.random() < 0.12:
+        dec = gen_roc_decimal(rng, maxn)
+        if dec is not None:
+            return dec
     if rng.random() < 0.05 and n >= 1:
         case["t"] = t[:-1] if rng.random() < 0.5 else t + [t[-1] + 5]
     return case
+
+
+def gen_roc_decimal(rng, maxn=12):
+    """Decimal threshold, time steps that are not powers of two, changes within one float64 step of threshold x step.
+    Off the dyadic lattice the float64 quotient is rounded, so a case is kept only if, at every point, the verdict over the
+    reals (exact rationals of the float inputs) equals the float64 evaluation of the documented formula |dx| / dt > thr —
+    then the expected flags are unambiguous and any algebraic rearrangement that rounds differently shows."""
+    import numpy as np
+
+    n = rng.randint(2, max(2, min(maxn, 8)))
+    thr = rng.choice([0.1, 0.2, 0.05, 0.3, 0.7])
+    steps = [rng.choice([3, 6, 7, 12, 24, 41, 48, 53]) for _ in range(n - 1)]
+    t = [1577836800]
+    for d in steps:
+        t.append(t[-1] + d)
+    xs = [float(rng.choice([0.0, 0.1, 1.5, 0.1 + 0.2]))]
+    for d in steps:
+        c = np.float64(thr) * d
+        c = float(rng.choice([c, np.nextafter(c, np.inf), np.nextafter(c, -np.inf), c, c * 2, c / 2]))
+        xs.append(float(np.float64(xs[-1]) + c) if rng.random() < 0.6 else float(np.float64(xs[-1]) - c))
+    for i in range(1, n):
+        real = abs(F(xs[i]) - F(xs[i - 1])) / steps[i - 1] > F(thr)
+        ieee = bool(np.abs(np.float64(xs[i]) - np.float64(xs[i - 1])) / np.float64(steps[i - 1]) > np.float64(thr))
+        if real != ieee:
+            return None
+    return {"fn": "roc", "inp": [F(x) for x in xs], "t": t, "thr": F(thr), "decimal_f32": True}
 
 
 def gen_flat(rng, maxn=12, regular_only=False):
